@@ -1,4 +1,5 @@
 import CTV.Gen.X509Types
+import CTV.Gen.X509Shapes
 /-!
 # The wrappers around the certificate envelope (x509/x509.go `ParseCertificate`, `ParseTBSCertificate`,
 `ParseCertificates`; x509/revoked.go `ParseCertificateListDER`; `IsFatal`)
@@ -20,6 +21,9 @@ inductive GoErr
   | plain
   /-- `NonFatalErrors` holding `n` errors -/
   | nonFatalErrors (n : Nat)
+  /-- a *pointer* to `NonFatalErrors` (what `NonFatalErrors.Append` returns): `IsFatal` only recognises the value type, so
+  this one counts as fatal -/
+  | nonFatalErrorsPtr (n : Nat)
   /-- `*Errors` (x509/error.go) with the `Fatal` flags of its entries -/
   | errorsPtr (fatals : List Bool)
   deriving Repr, DecidableEq, Inhabited
@@ -30,6 +34,7 @@ def isFatal : GoErr → Bool
   | .nonFatalErrors _ => false
   | .errorsPtr fs => fs.any id
   | .plain => true
+  | .nonFatalErrorsPtr _ => true
 
 /-- a Go `(obj, err)` return: is the object non-nil, and the error -/
 structure Ret where
@@ -130,15 +135,34 @@ to an `Errors` value (`events`: the `Fatal` flag of each, in order — payloads 
 a malformed FreshestCRL returns its plain error at once (`hardStop`). -/
 def parseCertificateListDER (d : Dialect) (payload : AVal → List Bool × Bool) (bs : Bytes) : Ret :=
   match parseField d .strict Gen.ty_CertificateList {} bs with
-  | .error _ => ⟨false, .errorsPtr [true]⟩
+  | .error _ => ⟨false, .errorsPtr [Gen.errInvalidCertListFatal]⟩
   | .ok (v, rest) =>
-    if !rest.isEmpty then ⟨false, .errorsPtr [true]⟩
+    if !rest.isEmpty then ⟨false, .errorsPtr [Gen.errTrailingCertListFatal]⟩
     else
       let (events, hardStop) := payload v
       if hardStop then ⟨false, .plain⟩
       else if events.any id then ⟨false, .errorsPtr events⟩
       else if events.isEmpty then ⟨true, .nil⟩
       else ⟨true, .errorsPtr events⟩
+
+/-! ### return statements as regenerated from the Go source (`Gen.X509Shapes`)
+
+An execution of a Go function that returns at all returns through one of its `return` statements. `retOf s n` is the
+pair such a statement yields: `n` is the number of errors the non-fatal collector holds when `return out, nfe` is reached
+(at least one: `Gen.parseCertificateNfeGuarded`); an error expression that is neither `nil` nor the collector is an
+ordinary error value (`Gen.nfeLeaks = []`: no function of the package hands the collector out as its error). -/
+
+def retOf : Gen.RetShape → Nat → Ret
+  | .nilErr, _ => ⟨false, .plain⟩
+  | .outErr, _ => ⟨true, .plain⟩
+  | .outNfe, n => ⟨true, .nonFatalErrors (n + 1)⟩
+  | .outNil, _ => ⟨true, .nil⟩
+  | .nilNil, _ => ⟨false, .nil⟩
+  | .tailCall, _ => ⟨false, .plain⟩   -- never used: tail calls are followed to the callee's list
+
+/-- `inner` behaves as some return statement of `parseCertificate` does -/
+def InnerFromSource (inner : AVal → Ret) : Prop :=
+  ∀ c, ∃ s ∈ Gen.parseCertificateReturns, ∃ n, inner c = retOf s n
 
 /-! ### raw fields of the envelope -/
 
